@@ -100,6 +100,15 @@ def gen_out(ck, limit, step):
         add([["enq", {"kind": "call", "size": first, "seed": 1, "plain": True}],
              ["enq", {"kind": "call", "size": max(0, second), "seed": 2, "plain": True}],
              ["enq", {"kind": "ping"}], ["flush"]], "refused_after_enqueued")
+    # ... and a SEND (not an enqueue) that does not fit behind what is queued: refused, nothing written,
+    # the queue stays as it was and goes out with the next flush
+    for i in range(24 if quick else 600):
+        first = rng.randrange(0, limit - 100)
+        second = rng.randrange(max(0, limit - first - 200), limit - first + 60)
+        kind = rng.choice(["call", "reply", "error"])
+        add([["enq", {"kind": "call", "size": first, "seed": 1, "plain": True}],
+             ["send", {"kind": kind, "size": max(0, second), "seed": 2, "plain": True}],
+             ["flush"], ["send", {"kind": "ping"}]], "send_refused_behind_queue")
     # a message queued behind another one, ending at every offset relative to the buffer end
     # (exact multiples of the step, one less, one more: "whatever its size relative to the step")
     for sz in range(120, 120 + step + 8):
